@@ -547,6 +547,10 @@ func IntOp(name string, bits int, x, y *sym.Term) *sym.Term {
 			b, k := pr[0], pr[1]
 			if b.Sort == sym.Bool && k.Sort != sym.Bool && k.IsConst() && k.C.Sign() != 0 {
 				one := big.NewInt(1)
+				if name == "xor" && k.C.Cmp(one) == 0 {
+					// flag ^ 1 is the complemented flag (flags are Bool-sorted terms standing for the words 0 and 1)
+					return sym.Not(b)
+				}
 				v1 := new(big.Int)
 				if name == "or" {
 					v1.Or(k.C, one)
